@@ -20,6 +20,7 @@ import (
 	"github.com/slackhq/nebula/header"
 	"github.com/slackhq/nebula/iputil"
 	"github.com/slackhq/nebula/noiseutil"
+	"github.com/slackhq/nebula/util"
 )
 
 // packages whose types are named by contracts
@@ -32,6 +33,7 @@ var (
 	_ = iputil.SpecIsExt
 	_ = noiseutil.RejectAfterMessages
 	_ *header.H
+	_ *util.ContextualError
 )
 
 // ---- contract vocabulary (evaluated symbolically by govc) ----
@@ -1131,6 +1133,93 @@ func specTunnelOK(h *HostInfo) bool {
 //@   ensures[others] implies(result1 != nil || k != result0, has(hm.Relays, k) == old(has(hm.Relays, k)) && hm.Relays[k] == old(hm.Relays[k]))
 //@   ensures[err]    implies(result1 != nil, result0 == 0)
 //@   loop 1 invariant has(hm.Relays, k) == old(has(hm.Relays, k)) && hm.Relays[k] == old(hm.Relays[k]) && same(hm.Relays, old(hm.Relays))
+
+// =====================================================================
+// C42 — certificate reload never changes a node's identity
+// =====================================================================
+//
+// The node's overlay networks are those of its v2 certificate if it has one,
+// else of its v1 certificate (newCertState builds myVpnNetworks that way); its
+// curve is that certificate's curve. reloadCerts must refuse (return an error
+// and leave the certificate state alone) any reload after the first that
+// would change either. slices.Equal and the certificate accessors are
+// deterministic functions here; the clauses compare the same terms the code
+// compares, so no property of list equality beyond determinism is needed.
+
+//@ func specSliceEq
+//@   opaque
+func specSliceEq(a, b []netip.Prefix) bool { return true }
+
+//@ func slices.Equal
+//@   trusted list equality of the standard library, a deterministic function of the two lists
+//@   ensures result == specSliceEq(s1, s2)
+//@   assigns nothing
+//@ func github.com/slackhq/nebula/cert.(Certificate).Networks
+//@   trusted accessor of an immutable certificate
+//@   ensures same(result, self.Networks())
+//@   assigns nothing
+//@ func github.com/slackhq/nebula/cert.(Certificate).Curve
+//@   trusted accessor of an immutable certificate
+//@   ensures result == self.Curve()
+//@   assigns nothing
+//@ func github.com/slackhq/nebula/config.(*C).GetString
+//@   trusted configuration lookup; reads only
+//@   assigns nothing
+//@ func github.com/slackhq/nebula/util.NewContextualError
+//@   trusted builds an error value
+//@   ensures result != nil
+//@   assigns nothing
+
+// A certificate state as newCertState builds it: at least one certificate,
+// and when both are present they agree on curve (and key and first network).
+//@ func specCertStateOK
+//@   pure
+func specCertStateOK(cs *CertState) bool {
+	return cs != nil && (cs.v1Cert != nil || cs.v2Cert != nil) &&
+		implies(cs.v1Cert != nil && cs.v2Cert != nil, cs.v1Cert.Curve() == cs.v2Cert.Curve())
+}
+
+//@ func newCertStateFromConfig
+//@   trusted loads and validates certificate and key (newCertState): a fresh state, or an error
+//@   ensures implies(result1 == nil, specCertStateOK(result0) && fresh(result0) && result0.cipher == cipher)
+//@   assigns nothing
+
+//@ func specNodeNetworks
+//@   pure
+func specNodeNetworks(cs *CertState) []netip.Prefix {
+	if cs.v2Cert != nil {
+		return cs.v2Cert.Networks()
+	}
+	return cs.v1Cert.Networks()
+}
+
+//@ func specNodeCurve
+//@   pure
+func specNodeCurve(cs *CertState) cert.Curve {
+	if cs.v2Cert != nil {
+		return cs.v2Cert.Curve()
+	}
+	return cs.v1Cert.Curve()
+}
+
+//@ func (*PKI).reloadCerts
+//@   props C42
+//@   requires p != nil && c != nil && p.l != nil && implies(!initial, specCertStateOK(p.cs.Load()))
+//@   old cs0 = p.cs.Load()
+//@   cases cs0.v1Cert != nil && cs0.v2Cert == nil && p.cs.Load().v1Cert != nil && p.cs.Load().v2Cert == nil
+//@   cases cs0.v1Cert != nil && cs0.v2Cert == nil && p.cs.Load().v1Cert == nil && p.cs.Load().v2Cert != nil
+//@   cases cs0.v1Cert != nil && cs0.v2Cert == nil && p.cs.Load().v1Cert != nil && p.cs.Load().v2Cert != nil
+//@   cases cs0.v1Cert == nil && cs0.v2Cert != nil && p.cs.Load().v1Cert != nil && p.cs.Load().v2Cert == nil
+//@   cases cs0.v1Cert == nil && cs0.v2Cert != nil && p.cs.Load().v1Cert == nil && p.cs.Load().v2Cert != nil
+//@   cases cs0.v1Cert == nil && cs0.v2Cert != nil && p.cs.Load().v1Cert != nil && p.cs.Load().v2Cert != nil
+//@   cases cs0.v1Cert != nil && cs0.v2Cert != nil && p.cs.Load().v1Cert != nil && p.cs.Load().v2Cert == nil
+//@   cases cs0.v1Cert != nil && cs0.v2Cert != nil && p.cs.Load().v1Cert == nil && p.cs.Load().v2Cert != nil
+//@   cases cs0.v1Cert != nil && cs0.v2Cert != nil && p.cs.Load().v1Cert != nil && p.cs.Load().v2Cert != nil
+//@   ensures[refused]  implies(result != nil, p.cs.Load() == cs0)
+//@   ensures[networks] implies(result == nil && !initial, specSliceEq(specNodeNetworks(cs0), specNodeNetworks(p.cs.Load())))
+//@   ensures[curve]    implies(result == nil && !initial, specNodeCurve(cs0) == specNodeCurve(p.cs.Load()))
+//@   ensures[cipher]   implies(result == nil && !initial, p.cs.Load().cipher == cs0.cipher)
+//@   ensures[state]    implies(result == nil, specCertStateOK(p.cs.Load()))
 
 // =====================================================================
 // C33 — timer wheel slot arithmetic
